@@ -31,7 +31,7 @@ ASSUMPTIONS = [
     "discipline incl. stalls is C40's subject)",
 ]
 BOUNDS = "payload lengths 0..9 (quick: 0,1,2,3,4,5,8; thorough: 0..9), DL 0/1, ready patterns: always, every 2nd, every 3rd " \
-         "cycle, single stalls at every position (thorough); K = packet length in transfers * stall factor + 6"
+         "cycle, single stalls at every position for lengths 0, 3, 8 (thorough); K = packet length in transfers * stall factor + 6"
 OUTSIDE = "payloads longer than 9 bytes; data_sink.valid dropping in mid-packet (underrun); free (symbolic) ready patterns " \
           "are only a best-effort thorough query"
 
@@ -46,10 +46,10 @@ class TxFramingHarness(Harness):
         from luna.gateware.usb.usb3.link.data import DataPacketReceiver
         self.dut = RawPacketTransmitter()
         self.hrx = RawHeaderPacketReceiver()
-        self.drx = DataPacketReceiver()
         self.length, self.delayed = length, delayed
         self.hp_type = 8 if length is not None else (4 if hp_type is None else hp_type)
         self.rt_data = rt_data and length is not None and not delayed
+        self.drx = DataPacketReceiver() if self.rt_data else None
         self.n = 0 if length is None else (length + 3) // 4
         self.ready = self.inp("ready", 1)
         self.dw0 = self.inp("dw0", 32, const=True)
@@ -73,7 +73,9 @@ class TxFramingHarness(Harness):
         m = Module()
         m.submodules.dut = dut = self.dut
         m.submodules.hrx = hrx = self.hrx
-        m.submodules.drx = drx = self.drx
+        drx = self.drx
+        if drx is not None:
+            m.submodules.drx = drx
         L = self.length
         dw0 = Signal(32, name="h_dw0")
         dw1 = Signal(32, name="h_dw1")
@@ -148,7 +150,7 @@ class TxFramingHarness(Harness):
         self.obs("src_ctrl", src.ctrl)
 
         # ---- round trip
-        for rx in (hrx, drx):
+        for rx in [hrx] + ([drx] if drx is not None else []):
             m.d.comb += [rx.sink.valid.eq(xfer), rx.sink.data.eq(src.data), rx.sink.ctrl.eq(src.ctrl)]
         m.d.comb += hrx.expected_sequence.eq(lcw[0:3])
         age = Signal(3, name="hdr_age")            # cycles since DW3 was transferred (1..4), 0 = not yet / over
@@ -195,7 +197,7 @@ class TxFramingHarness(Harness):
             bad_word = Signal(name="bad_word")
             m.d.comb += bad_word.eq((drx.source.valid != expm) | Cat(*[expm[i] & (drx.source.data[8 * i:8 * i + 8] != expw[8 * i:8 * i + 8]) for i in range(4)]).any())
             m.d.comb += [
-                self.v["rt_good"].eq(((t_now | t_next) & drx.packet_bad) | (t_next & ~seen_good & ~drx.packet_good)),
+                self.v["rt_good"].eq((t_now & drx.packet_bad) | (t_next & ~seen_good & ~drx.packet_good)),
                 self.v["rt_payload"].eq((out_ev & ((out_idx >= self.n) | bad_word)) | (t_next & (nbytes != L))),
                 self.c["rt_good"].eq((t_now | t_next) & drx.packet_good),
                 self.c["rt_payload"].eq(out_ev & (out_idx == self.n - 1) & ~bad_word) if self.n else
@@ -216,29 +218,29 @@ def _pat(name):
 def queries(tier):
     quick = tier == "quick"
     qs = []
-    lens = [None, 0, 1, 2, 3, 4, 5, 8] if quick else [None, 0, 1, 2, 3, 4, 5, 6, 7, 8, 9]
-    for L in lens:
+    if quick:
+        plan = [(None, "every2"), (0, "always"), (1, "every2"), (3, "always"), (4, "every3"), (5, "every2"), (8, "always")]
+    else:
+        plan = [(L, pn) for L in [None] + list(range(10)) for pn in ("always", "every2", "every3")]
+    for L, pn in plan:
         tag = "hp" if L is None else f"len{L}"
-        f = (lambda L=L: TxFramingHarness(length=L))
-        nw = f().nwords
-        pats = ["always", "every2"] if quick else ["always", "every2", "every3"]
-        if quick and L in (2, 4, 8):
-            pats = ["always"]
-        for pn in pats:
-            fac = {"always": 1, "every2": 2, "every3": 3}[pn]
-            rt = pn == "always"
-            ff = (lambda L=L, rt=rt: TxFramingHarness(length=L, rt_data=rt))
-            qs.append(Query(f"bmc_{tag}_{pn}", ff, nw * fac + 6, layer={"ready": _pat(pn)}, split=False, timeout=300,
-                            covers=None if pn == "always" else ["done", "stalled_done", "rt_header"],
-                            desc=f"{tag}: ready pattern '{pn}' (concrete layer), header and payload symbolic"))
-        if not quick and L is not None:
+        fac = {"always": 1, "every2": 2, "every3": 3}[pn]
+        rt = pn == "always"
+        ff = (lambda L=L, rt=rt: TxFramingHarness(length=L, rt_data=rt))
+        nw = ff().nwords
+        qs.append(Query(f"bmc_{tag}_{pn}", ff, nw * fac + 6, layer={"ready": _pat(pn)}, split=False, timeout=300,
+                        covers=None if (rt or L is None) else ["done", "stalled_done", "rt_header"],
+                        desc=f"{tag}: ready pattern '{pn}' (concrete layer), header and payload symbolic"))
+    if not quick:
+        for L in (0, 3, 8):
             # a single stall cycle at every position of the packet
+            nw = TxFramingHarness(length=L).nwords
             for s in range(2, nw + 2):
                 stall_before_crc = (s == nw)      # stall in the cycle the CRC word would be transferred
                 ff = (lambda L=L, rt=not stall_before_crc: TxFramingHarness(length=L, rt_data=rt))
-                qs.append(Query(f"bmc_{tag}_stall{s}", ff, nw + 8, layer={"ready": (lambda t, s=s: int(t != s))},
+                qs.append(Query(f"bmc_len{L}_stall{s}", ff, nw + 8, layer={"ready": (lambda t, s=s: int(t != s))},
                                 split=False, covers=["done"], timeout=300,
-                                desc=f"{tag}: ready low only in cycle {s} (concrete layer)"))
+                                desc=f"len{L}: ready low only in cycle {s} (concrete layer)"))
     for L, pn in ((3, "always"), (4, "every2")):
         ff = (lambda L=L: TxFramingHarness(length=L, delayed=True))
         nw = ff().nwords
